@@ -300,6 +300,12 @@ def self_tests(ctx, recs):
     if not bad:
         raise ToolError("self-test: no function with two registers used by one instruction")
     tests = [("corrupt", [bad], "Trace_RegAlloc", "NoClobber")]
+    for r in cands:
+        if r["src"]["stage"] == "pre" and r.get("coalesced"):
+            badpre = corrupt_one(r)          # the same edit on a pre-coalescing view = a wrong merge / wrong colour
+            if badpre:
+                tests.append(("corruptpre", [badpre], "Trace_RegAlloc", "NoClobber"))
+                break
     sp = [r for r in cands if r["nspill"] >= 2]
     if sp:
         r = sp[0]
@@ -413,6 +419,8 @@ def run(ctx):
     recs = [r for r in recs if r["nops"] <= MAX_OPS]
 
     validated, rej, timed_out, nshards = validate(ctx, recs)
+    log("[C08] %d distinct functions (%d recorded): %d validated, %d rejected, %d not validated (timeout), %d too large" % (
+        len(uniq), total_fns, len(validated), len(rej), len(timed_out), len(too_big)))
     for rec, verdict, wit in rej:
         d = describe(rec, verdict, wit)
         s = rec["src"]
